@@ -116,6 +116,15 @@ type ClientSpec struct {
 	NoRead bool `json:"no_read,omitempty"`
 	// ReadPolicy overrides the run's short-read policy for this client (0 = run default).
 	ReadPolicy int `json:"read_policy,omitempty"`
+	// Wait is a comma separated list of triggers awaited in order before the
+	// dial (see awaitTriggers); "" = until the address is bound.
+	Wait string `json:"wait,omitempty"`
+	// MustServe: the scenario guarantees that the service is serving when this
+	// client dials; not being accepted and answered is a violation.
+	MustServe bool `json:"must_serve,omitempty"`
+	// HoldUs > 0: after the last write the client keeps the connection open for
+	// this long (simulated) before its End action instead of waiting for quiescence.
+	HoldUs int `json:"hold_us,omitempty"`
 }
 
 func (c *ClientSpec) stream() []byte {
@@ -290,9 +299,12 @@ func describeErr(err error) string {
 func rawClientTask(idx int, spec ServiceSpec, c ClientSpec) func() {
 	return func() {
 		network, addr := splitAddr(spec.Address)
+		if c.Wait != "" {
+			awaitTriggers(c.Wait, network, addr)
+		}
 		if c.StartUs > 0 {
 			sim.Sleep(time.Duration(c.StartUs) * time.Microsecond)
-		} else {
+		} else if c.Wait == "" {
 			sim.Await(sim.Cond{Kind: sim.CondBound, S1: network, S2: addr})
 		}
 		ep, err := sim.Dial(network, addr)
@@ -342,12 +354,74 @@ func rawClientTask(idx int, spec ServiceSpec, c ClientSpec) func() {
 			}
 		})
 		// every client is gone after the first quiescence at the latest
-		sim.Await(sim.Cond{Kind: sim.CondQuiescent})
+		if c.HoldUs > 0 {
+			sim.Sleep(time.Duration(c.HoldUs) * time.Microsecond)
+		} else {
+			sim.Await(sim.Cond{Kind: sim.CondQuiescent})
+		}
 		if c.End == "abort-quiet" || c.End == "abort" {
 			ep.Abort()
 		} else {
 			ep.Close()
 		}
 		sim.Rec("client.end", fmt.Sprintf("%d", idx))
+	}
+}
+
+// awaitTriggers blocks until each trigger of the comma separated list has
+// fired, in order:
+//
+//	bound            a listener is bound to the address
+//	acceptblocked    a task is blocked in Accept on it
+//	acceptcalls:+N   N more Accept calls than when the wait started
+//	accepted:+N      N more accepted connections
+//	dialed:+N        N more dialled connections
+//	ev:KIND:N        at least N log events of that kind (absolute)
+//	sleep:US         simulated pause
+//	quiescent        nothing runnable, no event pending
+func awaitTriggers(list, network, addr string) {
+	for _, tr := range strings.Split(list, ",") {
+		parts := strings.Split(tr, ":")
+		num := func(i int) (int, bool) {
+			if i >= len(parts) {
+				return 1, false
+			}
+			rel := strings.HasPrefix(parts[i], "+")
+			n := 0
+			fmt.Sscanf(strings.TrimPrefix(parts[i], "+"), "%d", &n)
+			return n, rel
+		}
+		counting := func(kind sim.CondKind) {
+			n, rel := num(1)
+			c := sim.Cond{Kind: kind, S1: network, S2: addr}
+			if rel {
+				n += sim.Count(c)
+			}
+			c.N = n
+			sim.Await(c)
+		}
+		switch parts[0] {
+		case "", "none":
+		case "bound":
+			sim.Await(sim.Cond{Kind: sim.CondBound, S1: network, S2: addr})
+		case "acceptblocked":
+			sim.Await(sim.Cond{Kind: sim.CondAcceptBlocked, S1: network, S2: addr})
+		case "acceptcalls":
+			counting(sim.CondAcceptCalls)
+		case "accepted":
+			counting(sim.CondAccepted)
+		case "dialed":
+			counting(sim.CondDialed)
+		case "ev":
+			n, _ := num(2)
+			sim.Await(sim.Cond{Kind: sim.CondLogged, S1: parts[1], N: n})
+		case "sleep":
+			n, _ := num(1)
+			sim.Sleep(time.Duration(n) * time.Microsecond)
+		case "quiescent":
+			sim.Await(sim.Cond{Kind: sim.CondQuiescent})
+		default:
+			panic("unknown trigger " + tr)
+		}
 	}
 }
